@@ -27,7 +27,7 @@ def walk_sends(sc, obs):
 
 
 # ------------------------------------------------------------------ C01
-K_C01 = dict(stop_iter=0.25, any_group=0.2, callable_refs=0.15, state_decor=0.2, decor=0.5, multi_cand=0.75, guards=0.7, guard_max=3, validators=0.3, raises=0.08, sends=0.04,
+K_C01 = dict(wrapped_coros=0.5, falsy_model=0.08, stop_iter=0.25, any_group=0.2, callable_refs=0.15, state_decor=0.2, decor=0.5, multi_cand=0.75, guards=0.7, guard_max=3, validators=0.3, raises=0.08, sends=0.04,
              unknown_ev=0.15, allow=0.4, rtc_false=0.2, p_async=0.3, cbs=0.15, extra_trans=(1, 8),
              ops=(3, 16), p_write=0.05)
 
@@ -45,7 +45,7 @@ def nontrivial_C01(sc, obs):
 
 
 # ------------------------------------------------------------------ C02
-K_C02 = dict(any_group=0.15, callable_refs=0.2, state_decor=0.3, decor=0.6, yields=0.3, cbs=0.6, cb_max=3, conv=0.35, listeners=(0, 3), multi_prov=0.3, self_loop=0.3, internal=0.5,
+K_C02 = dict(wrapped_coros=0.4, falsy_model=0.08, any_group=0.15, callable_refs=0.2, state_decor=0.3, decor=0.6, yields=0.3, cbs=0.6, cb_max=3, conv=0.35, listeners=(0, 3), multi_prov=0.3, self_loop=0.3, internal=0.5,
              multi_event=0.5, p_async=0.3, sends=0.03, guards=0.4, validators=0.3, share_groups=0.3,
              ops=(2, 10))
 
@@ -99,7 +99,7 @@ def nontrivial_C02(sc, obs):
 
 
 # ------------------------------------------------------------------ C03
-K_C03 = dict(hosted=0.15, sends=0.4, send_budget=12, rtc_false=0.3, cbs=0.6, conv=0.2, p_async=0.25, guards=0.2,
+K_C03 = dict(p_clone=0.1, hosted=0.15, sends=0.4, send_budget=12, rtc_false=0.3, cbs=0.6, conv=0.2, p_async=0.25, guards=0.2,
              ops=(1, 6), multi_prov=0.1, scripts=(1, 4))
 
 
@@ -137,7 +137,7 @@ def nontrivial_C03(sc, obs):
 
 
 # ------------------------------------------------------------------ C04
-K_C04 = dict(stop_iter=0.35, hosted=0.1, sends=0.3, send_budget=8, cbs=0.5, conv=0.2, validators=0.3, guards=0.4, rtc_false=0.25,
+K_C04 = dict(base_exc=0.3, stop_iter=0.35, hosted=0.1, sends=0.3, send_budget=8, cbs=0.5, conv=0.2, validators=0.3, guards=0.4, rtc_false=0.25,
              p_async=0.3, ops=(2, 5), raises=0.0, guard_raise=0.0, multi_prov=0.15)
 
 
@@ -197,7 +197,7 @@ def nontrivial_C11(sc, obs):
 
 
 # ------------------------------------------------------------------ C14
-K_C14 = dict(any_group=0.2, callable_refs=0.2, state_decor=0.2, decor=0.6, cbs=0.8, cb_max=3, conv=0.35, ret_none=0.25, self_loop=0.3, internal=0.5, multi_event=0.5,
+K_C14 = dict(p_clone=0.06, wrapped_coros=0.4, any_group=0.2, callable_refs=0.2, state_decor=0.2, decor=0.6, cbs=0.8, cb_max=3, conv=0.35, ret_none=0.25, self_loop=0.3, internal=0.5, multi_event=0.5,
              p_async=0.3, sends=0.05, guards=0.3, listeners=(0, 2), multi_prov=0.3, allow=0.4, share_groups=0.3)
 
 
